@@ -250,7 +250,7 @@ class World:
     def touch(self, folder: str):
         self.syn_mtime[self.folder_path(folder).rstrip("/")] = self.next_tick()
 
-    def deliver(self, folder: str, msg: bytes, unseen: bool = True, mtime: int | None = None) -> int:
+    def deliver(self, folder: str, msg: bytes, unseen: bool = True, mtime: int | None = None, tick: bool = True) -> int:
         """What `rcvstore`/`inc` do, written with plain os calls (no asimap, no mailbox.MH)."""
         d = self.folder_path(folder)
         keys = [int(n) for n in os.listdir(d) if n.isdigit()]
@@ -277,7 +277,8 @@ class World:
                 out.append(f"unseen: {key}")
             with open(sp, "w") as f:
                 f.write("\n".join(out) + "\n")
-        self.touch(folder)
+        if tick:
+            self.touch(folder)  # tick=False: a delivery within the second of the folder's current mtime
         return key
 
     # -- snapshots -------------------------------------------------------------------------
